@@ -6,6 +6,7 @@ import concurrent.futures
 import fnmatch
 import hashlib
 import json
+import math
 import os
 import random
 import shutil
@@ -69,6 +70,11 @@ class Rec:
             self.samples.append(obj)
 
     def violation(self, key: str, what: str, case: Any) -> None:
+        if "TimeoutError" in key:
+            # the only source of TimeoutError is this harness's own wall-clock watchdog (the library never raises it): a slow
+            # computation on a loaded machine decides nothing
+            self.inconc("watchdog fired inside the monitored call (" + key.split(":")[0] + ")", case)
+            return
         self.nviol += 1
         if len(self.violations) < MAX_VIOLATIONS_KEPT:
             self.violations.append({"key": key, "what": what, "case": case})
@@ -360,13 +366,18 @@ class Watchdog:
             self.fired = True
             signal.alarm(1)
             raise TimeoutError("watchdog")
+        # nesting: an enclosing watchdog keeps its own deadline (its remaining time is put back on exit)
+        self.outer_left = signal.alarm(0)
+        self.t0 = time.time()
         self.old = signal.signal(signal.SIGALRM, handler)
-        signal.alarm(self.seconds)
+        signal.alarm(min(self.seconds, self.outer_left) if self.outer_left else self.seconds)
         return self
 
     def __exit__(self, *a):
         signal.alarm(0)
         signal.signal(signal.SIGALRM, self.old)
+        if self.outer_left:
+            signal.alarm(max(1, math.ceil(self.outer_left - (time.time() - self.t0))))
         return False
 
 
